@@ -287,7 +287,10 @@ extract_slice_indices (PyObject* index, size_t& start, size_t& end,
     }
     else if (PyInt_Check (index))
     {
-        size_t i = canonical_index (PyInt_AsSsize_t(index), totalLength);
+        Py_ssize_t idx = PyInt_AsSsize_t(index);
+        if (idx == -1 && PyErr_Occurred())
+            boost::python::throw_error_already_set();
+        size_t i = canonical_index (idx, totalLength);
         start = i;
         end   = i + 1;
         step  = 1;
